@@ -227,7 +227,7 @@ wait:
 	case wc.Dir == "c2s" && over:
 		switch {
 		case testedGot != nil:
-			report(kWSOverDelivered, fmt.Sprintf("OnPacket received the %d-byte message (limit %d)", testedGot.wire, limit))
+			report(kWSOverDelivered, fmt.Sprintf("OnPacket received a %d-byte message (data starts %s; limit %d)", testedGot.wire, testedGot.head, limit))
 		case barrierGot:
 			report(kWSOverOpen, "the barrier message sent after it was delivered")
 		case timedOut:
